@@ -129,7 +129,7 @@ func vpC11Later(rt *rapid.T, h *vpKMHist, before []*CNode, q uint64) []*CNode {
 func TestVP_C11_views(t *testing.T) {
 	c := kit.New(t, "C11", "rapid: G-membership histories (7..12 genesis quick / ..50 thorough, equal/adjacent genesis timestamps, 0..12 lifecycle operations with equal, +1ns, 30s, 12h, 7d and window-aligned steps) x 12 query times from {t-1,t,t+1} of records, maturity and window edges; relations: view(H,q) == view(records with ts<q, q) == view(those + drawn records with ts>q, q), repeated/shuffled query order on one Node, membership list and ConsensusIndex against a reference list; views = NodesListWithoutState(q,false|true), ConsensusKeys(0|1,q) on accepted and pledging chain objects, ConsensusThreshold(q,false|true), PledgingNode, electSnapshotNode (when >=7 accepted); non-trivial = records on both sides of q; distinct by (salt,q)")
 	c.Require("record-at-q", "record-at-q+1", "records-both-sides", "later-appended", "elect-compared", "removed-before-q", "pledging-at-q", "removal-candidate-at-q")
-	kit.SetChecks(kit.N(500, 20000))
+	kit.SetChecks(kit.N(500, 12000))
 	maxG := 12
 	if kit.Thorough() {
 		maxG = 50
